@@ -25,7 +25,7 @@ Lemma insert_match_core : forall e fwd regex t p r e',
      let cb := utf8_encode sl in
      let cline := if sp <? zlen sl then firstn (Z.to_nat sp) cb else cb in
      match match_go (S (S (length (hist e)))) (hist e) start fwd regex cline with
-     | None => if fwd then h_undo (set_hist e (-1) (hcpos e)) else Ok e
+     | None => if fwd then Ok (h_restore_line e) else Ok e
      | Some (m, pos) =>
        let e := set_line (set_hist e (n - pos) (hcpos e)) m in
        Ok (if preserve then c_set e sp else c_set e (llen e))
@@ -33,7 +33,7 @@ Lemma insert_match_core : forall e fwd regex t p r e',
   (line e' = line e /\ (hpos e' = hpos e \/ hpos e' = -1))
   \/ (exists q, 0 <= q < zlen (hist e) /\ line e' = nth (Z.to_nat q) (hist e) [] /\ hpos e' = zlen (hist e) - q /\
                 matches regex (search_key t p) (nth (Z.to_nat q) (hist e) []) = true)
-  \/ (fwd = true /\ -1 < hpos e /\ h_undo (set_hist e (-1) (hcpos e)) = Ok e').
+  \/ (fwd = true /\ -1 < hpos e /\ line e' = t /\ hpos e' = -1).
 Proof.
   intros e fwd regex t p r e' Hs H. unfold h_search_text in H. fold (saved e) in H. rewrite Hs in H.
   destruct (fwd && (hpos e <=? -1)) eqn:B.
@@ -44,7 +44,7 @@ Proof.
       { destruct (negb _) in H; inversion H; subst e'; split; reflexivity. }
       destruct L as [L1 L2]. split; [rewrite L1; exact M2|]. split; [exact L2|].
       rewrite <- M2. unfold search_key. exact M3.
-    + destruct fwd; [right; right; split; [reflexivity | split; [cbn [andb] in B; lia | exact H]]|]. inversion H; subst e'. left. split; [reflexivity | left; reflexivity].
+    + destruct fwd; [right; right; split; [reflexivity | split; [cbn [andb] in B; lia |]]; inversion H; subst e'; unfold h_restore_line; cbn [lines set_hist]; fold (saved e); rewrite Hs; split; reflexivity|]. inversion H; subst e'. left. split; [reflexivity | left; reflexivity].
 Qed.
 
 (* from the line being entered (the first search): the line is filed first, so the search
@@ -71,13 +71,13 @@ Qed.
 
 (* a further search, from a history line: the search text is still the line that was being
    entered; the buffer becomes a matching stored entry, or stays, or - forward with no more
-   match - goes back through undo to the line being entered *)
+   match - goes back to the line being entered *)
 Theorem later_search_result : forall e fwd regex t p r e', hpos e <> -1 -> saved e = (t, p) :: r ->
   h_insert_match e fwd regex = Ok e' ->
   (line e' = line e /\ (hpos e' = hpos e \/ hpos e' = -1))
   \/ (exists q, 0 <= q < zlen (hist e) /\ line e' = nth (Z.to_nat q) (hist e) [] /\ hpos e' = zlen (hist e) - q /\
                 matches regex (search_key t p) (nth (Z.to_nat q) (hist e) []) = true)
-  \/ (fwd = true /\ -1 < hpos e /\ h_undo (set_hist e (-1) (hcpos e)) = Ok e').
+  \/ (fwd = true /\ -1 < hpos e /\ line e' = t /\ hpos e' = -1).
 Proof.
   intros e fwd regex t p r e' Hp Hs H. unfold h_insert_match in H. replace (hpos e =? -1) with false in H by lia. cbn [bind] in H.
   exact (insert_match_core e fwd regex t p r e' Hs H).
